@@ -90,7 +90,8 @@ func init() {
 	check.Register("C12/race", func(c *check.Ctx) {
 		// every shard runs the same body with a different GOMAXPROCS / repetition
 		procs := []int{2, 16, 4, 8}[c.Shard%4]
-		data := dataset("D1")
+		// D1 plus the histogram buckets of the fault dataset
+		data := append(append([]core.SeriesSpec(nil), dataset("D1")...), faultData()[5:]...)
 		w := core.Range(10000, 30000, 12)
 		mk := func(q string, w core.Window, fallback bool, ndist int) raceJob {
 			cs := core.Case{Q: q, Data: data, W: w, O: core.Opts{Procs: procs, Fallback: fallback}}
@@ -105,10 +106,18 @@ func init() {
 			jobs = append(jobs, mk(`a`, w, false, 0), mk(`sum by (l) (rate(a[1m]))`, w, false, 0), mk(`a + on (l) group_left b`, w, false, 0),
 				mk(`topk(1, a)`, core.Instant(45000), false, 0), mk(`count_values("v", a)`, w, true, 0), mk(`-a + scalar(sum(b))`, w, false, 0),
 				mk(`sum by (l) (a)`, w, false, 2), mk(`histogram_quantile(0.5, a)`, core.Instant(45000), false, 0),
-				mk(`a{l="0"} + a`, w, false, 0), mk(`sum(a{m="1"}) / sum(a)`, w, false, 0))
+				mk(`a{l="0"} + a`, w, false, 0), mk(`sum(a{m="1"}) / sum(a)`, w, false, 0),
+				mk(`histogram_quantile(0.5, h_bucket)`, w, false, 0), mk(`histogram_quantile(0.9, rate(h_bucket[1m]))`, w, false, 0))
+		}
+		// every plan shape of the fault checks, once
+		for _, q := range planShapes(true) {
+			jobs = append(jobs, mk(q, w, false, 0))
+		}
+		for i := 0; i < 0; i++ {
+			jobs = append(jobs, mk(`a`, w, false, 0))
 		}
 		for i := range jobs {
-			if i%10 == 7 {
+			if i%12 == 7 {
 				jobs[i].cancel = true
 			}
 		}
